@@ -354,6 +354,7 @@ impl TransportVisitor for VRaw {
             }
             // Up to a queue-full of transmissions in flight (one descriptor each).
             if txs.len() < 2 {
+                menu.push((1, 0, 0));
                 menu.push((1, 1, 0));
                 menu.push((1, 3, 0));
             } else if txs.len() < NET_QS {
